@@ -126,6 +126,19 @@ _NOTHANDLED = object()
 _BUILTIN_CALLABLES = ("map", "filter", "zip", "enumerate", "sorted", "reversed", "sum", "min", "max", "abs", "any", "all", "range", "set", "callable", "divmod", "print", "getattr", "hasattr")
 
 
+class OneShot(list):
+    """what a generator expression, zip(), map(), filter(), enumerate(), reversed() or iter() hands back: an iterator.  The items
+    are computed eagerly (a limit of the interpreter) but can be taken only once - a second pass finds it empty, as in python; it
+    has no len() and cannot be indexed"""
+    spent = False
+
+    def take(self):
+        if self.spent:
+            return []
+        self.spent = True
+        return list(self)
+
+
 class BoundedCount(list):
     """itertools.count(): the first 5000 values; running off the end is a loop bound of the interpreter, not of the program"""
 
@@ -288,6 +301,8 @@ class Abs:
                     if "slice indices must be integers" in str(ex):
                         raise Raised("TypeError(%s)" % ex)
                     raise
+            if isinstance(base, OneShot):
+                raise Raised("TypeError(an iterator (generator / zip / map / filter / enumerate / reversed) is not subscriptable)")
             if isinstance(e.slice, ast.Slice):
                 lo = self.ev(e.slice.lower) if e.slice.lower is not None else None
                 hi = self.ev(e.slice.upper) if e.slice.upper is not None else None
@@ -355,7 +370,9 @@ class Abs:
             return v
         if isinstance(e, ast.Call):
             return self.call(e)
-        if isinstance(e, (ast.ListComp, ast.GeneratorExp, ast.SetComp)):
+        if isinstance(e, ast.GeneratorExp):
+            return OneShot(self._comp(e, 0, []))
+        if isinstance(e, (ast.ListComp, ast.SetComp)):
             return self._comp(e, 0, [])
         if isinstance(e, ast.DictComp):
             out = {}
@@ -368,7 +385,15 @@ class Abs:
             self.env = saved
             return out
         if isinstance(e, ast.Lambda):
-            return ("lambda", e, dict(self.env))
+            # python semantics: free variables are looked up when the lambda is *called* (late binding, the live scope is kept),
+            # default values are evaluated when it is *created*
+            a = e.args
+            names = [x.arg for x in a.posonlyargs + a.args]
+            dvals = {n: self.ev(d) for n, d in zip(names[len(names) - len(a.defaults):], a.defaults)}
+            for x, d in zip(a.kwonlyargs, a.kw_defaults):
+                if d is not None:
+                    dvals[x.arg] = self.ev(d)
+            return ("lambda", e, self.env, dvals)
         if isinstance(e, ast.JoinedStr):
             # the text for real when every interpolated value has a known text form, an opaque marker otherwise (messages)
             parts = []
@@ -424,6 +449,8 @@ class Abs:
         return k
 
     def _iter(self, v):
+        if isinstance(v, OneShot):
+            return v.take()
         if isinstance(v, dict):
             return list(v.keys())
         if isinstance(v, (list, tuple, str, range)):
@@ -435,6 +462,8 @@ class Abs:
         raise Undecided("iteration over %r" % (v,))
 
     def truth(self, v):
+        if isinstance(v, OneShot):
+            return True             # an iterator object is true whether or not anything is left in it
         if isinstance(v, Tok):
             raise Undecided("truth value of opaque %r" % v)
         if isinstance(v, Obj):
@@ -737,6 +766,8 @@ class Abs:
     def _dispatch(self, dn, args, kw):
         """built-in and standard-library callables by their (canonical) name; _NOTHANDLED when the name is none of them"""
         if dn == "len":
+            if isinstance(args[0], OneShot):
+                raise Raised("TypeError(object of type 'generator' has no len())")
             if isinstance(args[0], (list, tuple, dict, str)):
                 return len(args[0])
             if isinstance(args[0], Obj) and "__len__" in args[0].attrs:
@@ -774,9 +805,19 @@ class Abs:
             seqs = [self._iter(a) for a in args]
             return [tuple(t) for t in _it.product(*seqs, repeat=kw.get("repeat", 1))]
         if dn == "enumerate":
-            return [(i, x) for i, x in enumerate(self._iter(args[0]))]
+            return OneShot((i, x) for i, x in enumerate(self._iter(args[0]), *([args[1]] if len(args) > 1 else [kw["start"]] if "start" in kw else [])))
         if dn == "zip":
-            return [tuple(t) for t in zip(*[self._iter(a) for a in args])]
+            return OneShot(tuple(t) for t in zip(*[self._iter(a) for a in args]))
+        if dn == "iter" and len(args) == 1:
+            return args[0] if isinstance(args[0], OneShot) else OneShot(self._iter(args[0]))
+        if dn == "next" and len(args) in (1, 2) and isinstance(args[0], OneShot):
+            it = args[0]
+            if it.spent or not len(it):
+                it.spent = True
+                if len(args) == 2:
+                    return args[1]
+                raise Raised("StopIteration()")
+            return it.pop(0)
         if dn == "list":
             return list(self._iter(args[0])) if args else []
         if dn == "tuple":
@@ -861,7 +902,7 @@ class Abs:
         if dn == "map":
             fn = args[0]
             seqs = [self._iter(a) for a in args[1:]]
-            return [self.apply(fn, list(items), {}) for items in zip(*seqs)]
+            return OneShot(self.apply(fn, list(items), {}) for items in zip(*seqs))
         if dn == "functools.reduce" or (dn == "reduce" and "reduce" not in self.env):
             fn, seq = args[0], self._iter(args[1])
             if len(args) > 2:
@@ -877,14 +918,14 @@ class Abs:
             return all(vals) if dn == "all" else any(vals)
         if dn == "filter":
             fn, seq = args
-            return [x for x in self._iter(seq) if self.truth(self.apply(fn, [x], {}))]
+            return OneShot(x for x in self._iter(seq) if (self.truth(x) if fn is None else self.truth(self.apply(fn, [x], {}))))
         if dn == "sorted":
             try:
                 return sorted(self._iter(args[0]), reverse=bool(kw.get("reverse", False)))
             except TypeError:
                 raise Undecided("sorting opaque values")
         if dn == "reversed":
-            return list(reversed(self._iter(args[0])))
+            return OneShot(reversed(self._iter(args[0])))
         if dn == "set":
             out = []
             for x in self._iter(args[0]) if args else []:
@@ -906,6 +947,8 @@ class Abs:
             for x in self._iter(args[0]):
                 tot = self.binop(ast.Add(), tot, x)
             return tot
+        if dn == "dict.fromkeys" and len(args) in (1, 2) and "dict" not in self.env:
+            return {self._key(k): (args[1] if len(args) == 2 else None) for k in self._iter(args[0])}
         if dn in ("functools.partial",):
             if not args:
                 raise Raised("TypeError(partial() needs a callable)")
@@ -1018,19 +1061,48 @@ class Abs:
             if tag == "closure":
                 node, env_ref = f[1], f[2]
                 sub = self._sub(dict(env_ref), self.self_obj, self.module)
-                kind, out = sub._run_bound(node, args, kw, skip_self=False)
+                kind, out = sub._run_bound(node, args, kw, skip_self=False, dvals=f[3] if len(f) > 3 else None)
                 self.budget = sub.budget
                 if kind == "raise":
                     raise Raised(out)
                 return out
             if tag == "lambda":
                 lam, env = f[1], f[2]
-                sub = Abs(env, self.types, self.summaries, self.self_obj, self.getters, self.budget, self.eq)
+                dvals = f[3] if len(f) > 3 else {}
+                sub = Abs(dict(env), self.types, self.summaries, self.self_obj, self.getters, self.budget, self.eq)
                 sub.class_methods = self.class_methods
                 sub.module, sub.depth, sub.consts = self.module, self.depth, self.consts
-                for p, a in zip(lam.args.args, args):
-                    sub.env[p.arg] = a
-                return sub.ev(lam.body)
+                sub.self_class = self.self_class
+                la = lam.args
+                names = [x.arg for x in la.posonlyargs + la.args]
+                if len(args) > len(names) and la.vararg is None:
+                    raise Raised("TypeError(<lambda>() takes %d positional arguments but %d were given)" % (len(names), len(args)))
+                bound = dict(zip(names, args))
+                if la.vararg is not None:
+                    bound[la.vararg.arg] = tuple(args[len(names):])
+                konly = [x.arg for x in la.kwonlyargs]
+                extra = {}
+                for k, v in kw.items():
+                    if k in bound:
+                        raise Raised("TypeError(<lambda>() got multiple values for argument %s)" % k)
+                    if k in names or k in konly:
+                        bound[k] = v
+                    elif la.kwarg is not None:
+                        extra[k] = v
+                    else:
+                        raise Raised("TypeError(<lambda>() got an unexpected keyword argument %s)" % k)
+                if la.kwarg is not None:
+                    bound[la.kwarg.arg] = extra
+                for n in names + konly:
+                    if n not in bound:
+                        if n in dvals:
+                            bound[n] = dvals[n]
+                        else:
+                            raise Raised("TypeError(<lambda>() missing required argument %s)" % n)
+                sub.env.update(bound)
+                v = sub.ev(lam.body)
+                self.budget = sub.budget
+                return v
             if tag == "dictm":
                 _, m, d = f
                 if m == "items":
@@ -1294,7 +1366,13 @@ class Abs:
             elif isinstance(st, (ast.Import, ast.ImportFrom)):
                 continue
             elif isinstance(st, ast.FunctionDef):
-                self.env[st.name] = ("closure", st, self.env)     # the closure sees the live local scope
+                a_ = st.args
+                names_ = [x.arg for x in a_.posonlyargs + a_.args]
+                dvals_ = {n: self.ev(d) for n, d in zip(names_[len(names_) - len(a_.defaults):], a_.defaults)}
+                for x_, d_ in zip(a_.kwonlyargs, a_.kw_defaults):
+                    if d_ is not None:
+                        dvals_[x_.arg] = self.ev(d_)
+                self.env[st.name] = ("closure", st, self.env, dvals_)     # the closure sees the live local scope; defaults are evaluated now
             else:
                 raise Undecided("statement %s" % type(st).__name__)
 
@@ -1386,7 +1464,22 @@ class Abs:
             raise Raised(out)
         return out
 
-    def _run_bound(self, fnode, args, kw, skip_self):
+    def _default(self, fnode, pname, d):
+        """default value of a parameter of a module-level function or method: evaluated once, when the function is defined - a
+        mutable default (list / dict / array) is one object shared by all calls, as in python"""
+        if isinstance(d, ast.Constant) or (isinstance(d, ast.UnaryOp) and isinstance(d.operand, ast.Constant)) \
+                or (isinstance(d, ast.Tuple) and not d.elts) or isinstance(d, (ast.Name, ast.Attribute)):
+            return self.ev(d)
+        repo = CURRENT_REPO[0]
+        if repo is None or func_of_node(repo, fnode) is None:
+            return self.ev(d)
+        store = repo.__dict__.setdefault("_default_store", {})
+        key = (id(fnode), pname)
+        if key not in store:
+            store[key] = self._sub({}, None, self.module).ev(d)
+        return store[key]
+
+    def _run_bound(self, fnode, args, kw, skip_self, dvals=None):
         a = fnode.args
         params = [x.arg for x in a.posonlyargs + a.args]
         if skip_self and params:
@@ -1416,13 +1509,15 @@ class Abs:
             if x.arg not in bound:
                 if d is None:
                     raise Raised("TypeError(missing keyword-only %s)" % x.arg)
-                bound[x.arg] = self.ev(d)
+                bound[x.arg] = dvals[x.arg] if dvals is not None and x.arg in dvals else self._default(fnode, x.arg, d)
         allp = [x.arg for x in a.posonlyargs + a.args]
         defaults = dict(zip(allp[len(allp) - len(a.defaults):], a.defaults))
         for p_ in params:
             if p_ not in bound:
-                if p_ in defaults:
-                    bound[p_] = self.ev(defaults[p_])
+                if dvals is not None and p_ in dvals:
+                    bound[p_] = dvals[p_]
+                elif p_ in defaults:
+                    bound[p_] = self._default(fnode, p_, defaults[p_])
                 else:
                     raise Raised("TypeError(missing argument %s of %s)" % (p_, fnode.name))
         self.env.update(bound)
@@ -1499,7 +1594,7 @@ class Abs:
             if p in args:
                 self.env[p] = args[p]
             elif p in defaults:
-                self.env[p] = self.ev(defaults[p])
+                self.env[p] = self._default(fnode, p, defaults[p])
             else:
                 raise Undecided("missing argument %s" % p)
         try:
